@@ -248,12 +248,26 @@ structure Request where
   now : Nat
   /-- monotonic clock (`Instant::now()`), seconds -/
   inst : Nat
+  /-- no RRSIG of the RRset is a candidate at all (`rrsig` is then meaningless); set by
+  `MultiRequest.toRequest` -/
+  skip : Bool := false
   deriving Repr, Inhabited
+
+/-- `MAX_RRSIGS_PER_RRSET` -/
+def MAX_RRSIGS_PER_RRSET : Nat := 8
+
+/-- the `filter_map` of `verify_default_rrset` on the RRSIG at index `i` of the (unfiltered)
+`rrset.signatures`: it is a candidate (a DNSKEY lookup is made for it) unless its signer is not the
+owner or an ancestor of it (207ce2a), it covers a DS RRset and names the DS owner itself (4f49cf9), or
+`i > MAX_RRSIGS_PER_RRSET` -/
+def isCandidate (keyName : Name) (keyType : Nat) (i : Nat) (sig : Rrsig) : Bool :=
+  sig.input.signer.zoneOf keyName &&
+    !(keyType == 43 && !keyName.isRoot && Name.eq sig.input.signer keyName) &&
+    !(decide (i > MAX_RRSIGS_PER_RRSET))
 
 /-- no DNSKEY lookup is made for this request (the RRSIG is skipped by `verify_default_rrset`) -/
 def noLookup (r : Request) : Bool :=
-  !(r.rrsig.input.signer.zoneOf r.keyName) ||
-    (r.keyType == 43 && !r.keyName.isRoot && Name.eq r.rrsig.input.signer r.keyName)
+  r.skip || !(isCandidate r.keyName r.keyType 0 r.rrsig)
 
 /-- `verify_default_rrset` for one RRSIG: skipped without a lookup (Bogus), or the DNSKEY lookup
 succeeded: `Some(..)` → `Ok(RrsetProof)`, `None` → `Err(RrsigsUnverified)` with proof Bogus. -/
@@ -353,6 +367,58 @@ def outlivesSignature (r : Request) (v : Verdict) (fresh : Bool) : Bool :=
 def sameKeyOtherRdata (r' r : Request) : Bool :=
   r'.ck == r.ck && r'.rrsig == r.rrsig &&
     r'.records.map (fun x => canonBytes x.data) != r.records.map (fun x => canonBytes x.data)
+
+/-! #### several RRSIGs per RRset, and the validator's clock
+
+`verify_default_rrset` builds one verification future per *candidate* RRSIG, each carrying its index
+`i` into the unfiltered `rrset.signatures` (`enumerate` before `filter_map`), and takes the first
+future that completes with `Ok(_)` (`select_ok`) — with DNSKEY lookups that are answered at once this
+is the first candidate in list order, **even when it yields `Ok(None)`** (no key verifies it).  The
+reported `rrsig_index` is used by `ValidationCache::insert` (signature span of
+`rrset.signatures[rrsig_index]`) and by `update_rrset` (which RRSIG record gets the proof and TTL).
+
+`verify_response` reads `Time::current_time()` (a `u64`) and converts it with `as u32`: the validator's
+clock is the wall clock modulo 2³². -/
+
+/-- a validation request with all RRSIGs of the RRset (message order) and the 64-bit wall clock -/
+structure MultiRequest where
+  ck : CacheKey
+  dnskeys : List (Dnskey × Proof)
+  rrsigs : List Rrsig
+  keyName : Name
+  keyType : Nat
+  records : List Record
+  /-- `Time::current_time()`, seconds since the epoch, `u64` -/
+  clock : Nat
+  inst : Nat
+  deriving Repr, Inhabited
+
+/-- the first candidate RRSIG with its index into the unfiltered list -/
+def firstCandidate (keyName : Name) (keyType : Nat) : Nat → List Rrsig → Option (Nat × Rrsig)
+  | _, [] => none
+  | i, sig :: rest =>
+    if isCandidate keyName keyType i sig then some (i, sig) else firstCandidate keyName keyType (i + 1) rest
+
+/-- `current_time() as u32` -/
+def clock32 (t : Nat) : Nat := t % M32
+
+/-- the single-RRSIG request the code effectively evaluates, and the `rrsig_index` it reports -/
+def MultiRequest.toRequest (m : MultiRequest) : Request × Option Nat :=
+  match firstCandidate m.keyName m.keyType 0 m.rrsigs with
+  | some (i, sig) =>
+    ({ ck := m.ck, dnskeys := m.dnskeys, rrsig := sig, keyName := m.keyName, keyType := m.keyType,
+       records := m.records, now := clock32 m.clock, inst := m.inst }, some i)
+  | none =>
+    ({ ck := m.ck, dnskeys := m.dnskeys, rrsig := default, keyName := m.keyName, keyType := m.keyType,
+       records := m.records, now := clock32 m.clock, inst := m.inst, skip := true }, none)
+
+/-- one step of `verify_rrsets` for an RRset with several RRSIGs: new cache, verdict, fresh?, and the
+index (into the unfiltered list) of the RRSIG that gets the proof — `None` for an `Err` result -/
+def validateM (sigValid : SigOracle) (cfg : CacheConfig) (c : Cache) (m : MultiRequest) :
+    Cache × Verdict × Bool × Option Nat :=
+  let (r, idx) := m.toRequest
+  let (c', v, fresh) := validate sigValid cfg c r
+  (c', v, fresh, if v.isOk then idx else none)
 
 /-- `VerifiedRrset::update_rrset` : the TTL every record of the RRset leaves with -/
 def updatedTtl (v : Verdict) (recordTtl : Nat) : Nat :=
